@@ -54,6 +54,7 @@ type Req struct {
 	Qs      []string          `json:"qs,omitempty"`
 	Entity  []map[string]interface{} `json:"entity,omitempty"`
 	NoNodes bool              `json:"nonodes,omitempty"`
+	Delays  map[string]int    `json:"delays,omitempty"` // path -> milliseconds to stall before a worker processes it
 }
 
 type Resp map[string]interface{}
@@ -247,6 +248,9 @@ func handle(r *Req) (resp Resp) {
 			if k, ok := rank[p]; ok {
 				time.Sleep(time.Duration(k) * 15 * time.Millisecond)
 			}
+			if ms, ok := r.Delays[p]; ok {
+				time.Sleep(time.Duration(ms) * time.Millisecond)
+			}
 		}
 		graph.VerifOnMerge = func(l *graph.CodeGraph) {
 			mu.Lock()
@@ -283,7 +287,7 @@ func handle(r *Req) (resp Resp) {
 			resp["edges"] = d["edges"]
 			resp["merged"] = merged
 			resp["outcome"] = "ok"
-		case <-time.After(60 * time.Second):
+		case <-time.After(180 * time.Second):
 			resp["outcome"] = "hang"
 		}
 	case "query":
